@@ -390,6 +390,65 @@ func init() {
 			}
 		}
 		e.close()
+		// Request signing (--signature-key) and reverse-proxy mode are about what the proxy ADDS and how it reads ITS OWN request:
+		// the body (also just over a megabyte), the request target and the Host the proxy was addressed with go to the upstream unchanged
+		{
+			be2 := newRawBackend()
+			es, err := newEnv(c, proxyCfg{InjectRequest: defaultInject(), SignatureKey: "sha256:relay-secret", ReverseProxy: true,
+				Upstreams: []options.Upstream{{ID: "raw", Path: "/", URI: "http://" + be2.ln.Addr().String()}}})
+			if err != nil {
+				c.violation("HARNESS", "env (signature key): "+err.Error(), nil)
+			} else {
+				frontS := httptest.NewServer(es.proxy)
+				fu, _ := url.Parse(frontS.URL)
+				ckS := es.issueSessionCookie(es.sessionFor(u, 30*time.Second))
+				be2.mu.Lock()
+				be2.status, be2.body = "200 OK", "ok"
+				be2.mu.Unlock()
+				for _, size := range []int{0, 1, 65536, 999999, 1000000, 1000001, 1020000, 1048576, 1048577} {
+					body := bytes.Repeat([]byte("0123456789abcdef"), size/16+1)[:size]
+					want := fmt.Sprintf("%x", sha256.Sum256(body))
+					req, _ := http.NewRequest("POST", frontS.URL+fmt.Sprintf("/upload/%d?x=1;y=2&z=a+b", size), bytes.NewReader(body))
+					req.Header.Set("Cookie", ckS)
+					req.Header.Set("X-Forwarded-Host", "www.example.com")
+					req.Header.Set("X-Forwarded-Proto", "https")
+					resp, err := (&http.Client{Timeout: 30 * time.Second}).Do(req)
+					st := 0
+					if err == nil {
+						st = resp.StatusCode
+						io.Copy(io.Discard, resp.Body)
+						resp.Body.Close()
+					}
+					be2.mu.Lock()
+					gotLine, gotSum, gotHdrs := be2.last.line, be2.last.bodySum, be2.last.headers
+					be2.mu.Unlock()
+					host := ""
+					for _, h := range gotHdrs {
+						if strings.HasPrefix(strings.ToLower(h), "host:") {
+							host = strings.TrimSpace(h[5:])
+						}
+					}
+					c.casen(fmt.Sprintf("relay|signed|%d", size), fmt.Sprintf("%d bytes => %d", size, st))
+					c.count("relay:signed-upload")
+					in := map[string]interface{}{"body_bytes": size, "status": st, "error": fmt.Sprint(err), "signature_key": "configured", "reverse_proxy": true, "x_forwarded_host": "www.example.com"}
+					if err != nil || st != 200 || gotSum != want {
+						c.violation("C17", fmt.Sprintf("a request body of %d bytes did not reach the upstream unchanged with request signing configured (status %d)", size, st), in)
+						continue
+					}
+					if wantLine := fmt.Sprintf("POST /upload/%d?x=1;y=2&z=a+b HTTP/1.1", size); gotLine != wantLine {
+						in["upstream_request_line"], in["want"] = gotLine, wantLine
+						c.violation("C17", "the request target did not reach the upstream unchanged", in)
+					}
+					if host != fu.Host {
+						in["upstream_host"], in["proxy_addressed_as"] = host, fu.Host
+						c.violation("C17", "the upstream received another Host than the one the proxy was addressed with (pass-host-header): a forwarded host is for the proxy's own redirects and cookies, not for the upstream", in)
+					}
+				}
+				frontS.Close()
+				es.close()
+			}
+			be2.ln.Close()
+		}
 		// An upstream with a configured timeout (documented: the time allowed for the upstream's RESPONSE HEADERS) over a kept-alive,
 		// re-used connection: a body that streams for longer than the timeout, and a request sent on a connection that is almost
 		// `timeout` old, are relayed completely — the timeout is per request, not a lifetime of the pooled connection
@@ -473,6 +532,6 @@ func init() {
 			}
 			slow.Close()
 		}
-		c.close([]string{"relay:case", "relay:with-interim", "relay:prefix-lookalike", "relay:repeated-headers", "relay:concurrent-body", "relay:upstream-dies-mid-body", "relay:upgrade"})
+		c.close([]string{"relay:case", "relay:with-interim", "relay:prefix-lookalike", "relay:repeated-headers", "relay:concurrent-body", "relay:upstream-dies-mid-body", "relay:upgrade", "relay:signed-upload"})
 	})
 }
